@@ -66,6 +66,10 @@ def fixed_point_and_monotone(self, rule_key, OLD):
     cx = base.ctx()
     if CONFIG["suspend"]:
         return True  # scratch tables built by the extractor while minimising
+    if len(self._rules) != len(shadow_of(self)) + 1:
+        # a table met with content (unpickled): its history is unknown, nothing is judged
+        cx.count("table.unknown_history_not_judged")
+        return True
     shadow_of_keys(self).append(rule_key)
     rules = shadow_of(self)
     rules.append((rule_key.parent, tuple(rule_key.children), tuple(rule_key.shifts)))
